@@ -7,6 +7,7 @@ name is cold.  Part B (lineage requests): `TableLineageAnalyzer` over a provider
 asked only for base tables the statement names, under one spelling, and the lineage must not depend on the cache temperature.
 """
 import itertools
+import re
 import engine as E
 import pfam, sqlgen
 from canon_ext_cache import provider, path_class, hx, fnv1a
@@ -188,7 +189,7 @@ def lineage_statements(r, n):
     for i in range(n):
         d = r.choice(["MYSQL", "HIVE"])
         a, b, c = r.choice(TABLES), r.choice(TABLES), r.choice(TABLES)
-        k = r.below(22)
+        k = r.below(26)
         al, al2 = r.choice(["x", "t1", "orders", "t2", "q"]), r.choice(["u", "act_u", "t2"])      # derived-table aliases, sometimes a catalogue table's name
         if al2 == al: al2 = "u9"
         if k == 0: s = "SELECT a, b FROM %s" % a
@@ -214,11 +215,52 @@ def lineage_statements(r, n):
         elif k == 18: s = "SELECT %s.a FROM (SELECT a, b FROM %s) %s WHERE %s.b IN (WITH v AS (SELECT b FROM %s) SELECT b FROM v)" % (al, a, al, al, b)
         elif k == 19: s = "INSERT INTO %s SELECT %s.a, %s.b, %s.c FROM (SELECT a, b FROM %s) %s JOIN (WITH v AS (SELECT a, c FROM %s) SELECT a, c FROM v) %s ON %s.a = %s.a" % (c, al, al, al2, a, al, b, al2, al, al2)
         elif k == 20: s = "SELECT %s.a, %s.a FROM (WITH v AS (SELECT a FROM %s) SELECT a FROM v) %s JOIN (WITH v AS (SELECT a FROM %s) SELECT a FROM v) %s ON %s.a = %s.a" % (al, al2, a, al, b, al2, al, al2)
+        # a WITH table / derived-table alias that has the NAME OF THE BASE TABLE it reads (or that an earlier sibling reads): inside the body the name is the base
+        # table, outside it is the WITH / derived table — the lookup order "derived, WITH, provider" must hold although the provider was already asked for the name
+        elif k == 21: n_ = r.choice(["t1", "t2"]); s = "WITH %s AS (SELECT o.b AS a, o.c AS k FROM %s o) SELECT a, k FROM %s" % (n_, n_, n_)
+        elif k == 22: n_ = r.choice(["t1", "t2"]); s = "SELECT %s.a FROM (SELECT b AS a FROM %s) %s" % (n_, n_, n_)
+        elif k == 23: n_ = r.choice(["t1", "t2"]); s = "SELECT p.a, %s.k FROM (SELECT a FROM %s) p JOIN (SELECT y.b AS k FROM %s y) %s ON 1 = 1" % (n_, n_, b, n_)
+        elif k == 24: n_ = r.choice(["t1", "t2"]); s = "INSERT INTO %s (a) WITH %s AS (SELECT c AS a FROM %s) SELECT a FROM %s" % (a, n_, n_, n_) if d == "HIVE" else "WITH %s AS (SELECT c AS a FROM %s) SELECT %s.a FROM %s" % (n_, n_, n_, n_)
         else:
             g = sqlgen.Gen(r, d, wild=False)
             s = g.query()
         out.append((d, s))
     return out
+
+
+SHADOW_CAT = "CREATE TABLE t1 (a int, b int, c int); CREATE TABLE t2 (a int, b int, c int); CREATE TABLE s.t (a int, b int, c int); CREATE TABLE db1.orders (a int, b int, c int)"
+
+
+def shadowing_cases(r, n):
+    """(dialect, statement, [(output column, {(schema, table, column)})]): a WITH table / derived-table alias named like the base table it reads, or like a base
+    table an EARLIER sibling reads.  Inside the body the name is the base table (the provider is asked for it), outside it is the WITH / derived table: the
+    lookup order "derived table, WITH table, provider" must hold although the provider's answer for that very name is already there."""
+    out = []
+    plain = {"t1": (None, "t1"), "t2": (None, "t2"), "s.t": ("s", "t"), "db1.orders": ("db1", "orders")}
+    for _ in range(n):
+        d = r.choice(["MYSQL", "HIVE", "DEFAULT"])
+        n_ = r.choice(["t1", "t2"]); N = plain[n_]
+        b_ = r.choice(list(plain)); B = plain[b_]
+        x, y, z = r.shuffle(["a", "b", "c"])
+        k = r.below(7)
+        if k == 0: s, w = "WITH %s AS (SELECT o.%s AS %s, o.%s AS k FROM %s o) SELECT %s, k FROM %s" % (n_, y, x, z, n_, x, n_), [(x, {N + (y,)}), ("k", {N + (z,)})]
+        elif k == 1: s, w = "SELECT %s.%s FROM (SELECT %s AS %s FROM %s) %s" % (n_, x, y, x, n_, n_), [(x, {N + (y,)})]
+        elif k == 2: s, w = ("SELECT p.%s, %s.k FROM (SELECT %s FROM %s) p JOIN (SELECT q.%s AS k FROM %s q) %s ON 1 = 1" % (x, n_, x, n_, y, b_, n_)), [(x, {N + (x,)}), ("k", {B + (y,)})]
+        elif k == 3: s, w = "WITH %s AS (SELECT %s AS %s FROM %s) SELECT %s.%s FROM %s" % (n_, z, x, n_, n_, x, n_), [(x, {N + (z,)})]
+        elif k == 4: s, w = ("WITH v AS (SELECT %s FROM %s), %s AS (SELECT %s AS %s FROM %s) SELECT v.%s, %s.%s FROM v JOIN %s ON 1 = 1" % (x, n_, n_, y, z, b_, x, n_, z, n_)), [(x, {N + (x,)}), (z, {B + (y,)})]
+        elif k == 5: s, w = ("SELECT %s FROM (SELECT %s.%s FROM (SELECT %s AS %s FROM %s) %s) o" % (x, n_, x, y, x, n_, n_)), [(x, {N + (y,)})]
+        else: s, w = "SELECT %s, %s FROM %s" % (x, y, n_), [(x, {N + (x,)}), (y, {N + (y,)})]          # control
+        out.append((d, s, w))
+    return out
+
+
+LIN_ITEM = re.compile(r'T\[StandardColumn\{column_idx=\d+,column_name="([^"]*)"\},L\[((?:SourceColumn\{[^}]*\},?)*)\]\]')
+LIN_SRC = re.compile(r'SourceColumn\{schema_name=(None|"[^"]*"),table_name="([^"]*)",column_name="([^"]*)"\}')
+
+
+def parse_an_lineage(a):
+    body = a.split(" ASKED ")[0]
+    return [(m.group(1), {(None if x.group(1) == "None" else x.group(1).strip('"'), x.group(2), x.group(3)) for x in LIN_SRC.finditer(m.group(2))}) for m in LIN_ITEM.finditer(body)]
 
 
 def unhexlist(s):
@@ -514,6 +556,17 @@ def run(ctx):
     for (d, t), a in list(zip(stmts, ans))[:3]:
         ctx.sample({"dialect": d, "sql": t[:160], "impl": a[:200]})
 
+    # what the provider returned decides the result — for the table it was asked about, not for a WITH / derived table of the same name
+    sh = shadowing_cases(r.fork("shadowing"), 300 if ctx.quick else 6000)
+    res_sh, _ = ctx.corr(["AN lineage %s %s %s" % (d, E.enhex(SHADOW_CAT), E.enhex(t)) for d, t, _ in sh], stream="lineage-shadowing")
+    for (d, t, want), (_, a, _) in zip(sh, res_sh):
+        got = parse_an_lineage(a) if a.startswith("OK ") else None
+        okk = got == want
+        ctx.count("shadowing:" + ("as-specified" if okk else "DIFFERENT"))
+        if not okk:
+            pfam.report(ctx, "lineage:name-shadowing", {"kind": "lineage-value", "dialect": d, "input": t, "catalogue": SHADOW_CAT, "want": [[n_, sorted(map(list, s_), key=str)] for n_, s_ in want],
+                                                       "observed": a[:600], "oracle": "c17: a WITH table / derived-table alias named like a base table is looked up before the provider's "
+                                                       "answer for that name: the lineage is the body's, the provider is asked for base tables only", "how_found": "stream lineage-shadowing"})
     lineage_histories(ctx, r.fork("histories"))
     lineage_threads(ctx, r.fork("threads"), runs=1 if ctx.quick else 6)
 
@@ -536,6 +589,11 @@ def run(ctx):
 
 
 def replay(payload):
+    if payload.get("kind") == "lineage-value":
+        a = E.run_impl(["AN lineage %s %s %s" % (payload["dialect"], E.enhex(payload["catalogue"]), E.enhex(payload["input"]))])[0]
+        got = parse_an_lineage(a) if a.startswith("OK ") else None
+        print(payload["input"]); print("wanted  :", payload["want"]); print("observed:", a[:600])
+        return 0 if got is not None and [[n_, sorted(map(list, s_), key=str)] for n_, s_ in got] == payload["want"] else 1
     if payload.get("kind") == "lineage-threads":
         return replay_threads(payload)
     if payload.get("kind") == "lineage-history":
